@@ -460,6 +460,10 @@ def countKinds (l : List (Kind × Bool)) : Nat × Nat × Nat := l.foldr (fun k a
 def countSkel (k : List (Kind × Bool) × List (Option Comb × List (Kind × Bool))) : Nat × Nat × Nat :=
   add3 (countKinds k.1) (k.2.foldr (fun p acc => add3 (countKinds p.2) acc) (0, 0, 0))
 
+/-- the kinds of all simple selectors of a skeleton, negated ones included -/
+def flatKinds (k : List (Kind × Bool) × List (Option Comb × List (Kind × Bool))) : List Kind :=
+  (k.1 ++ k.2.flatMap (·.2)).map (·.1)
+
 /-- the specificity `(b, c, d)` of a written selector — a function of its skeleton only -/
 def Sel.count (s : Sel) : Nat × Nat × Nat := countSkel s.skel
 
